@@ -237,7 +237,7 @@ def build(ctx, index):
     if index < 0:     # fixed corpus (run first)
         seq, nb, sysw = filegen.shared_gradient_corpus()
         return rng, seq, nb, sysw, filegen.rand_system(rng, default_prob=0.3)
-    seq, nb, sysw = filegen.random_sequence(rng)
+    seq, nb, sysw = filegen.random_sequence(rng, twins=True)
     sysr = filegen.rand_system(rng, default_prob=0.3)
     return rng, seq, nb, sysw, sysr
 
@@ -267,11 +267,13 @@ def one_case(ctx, index, want_model=True):
             ctx.count('skipped.write_assertion')
             return None
         text = open(fn).read()
-        s2 = pp.Sequence(sysr)
+        used = rng.random() < 0.5
+        s2 = filegen.used_reader(rng, sysr, d) if used else pp.Sequence(sysr)
+        ctx.count('reader.' + ('with_prior_content' if used else 'fresh'))
         try:
             s2.read(fn)
         except Exception as e:  # noqa: BLE001
-            ctx.fail('C01/read-raises', case, {'exception': repr(e)})
+            ctx.fail('C01/read-raises', case, {'exception': repr(e), 'reader_with_prior_content': used})
             return None
         s3 = pp.Sequence(sysr)
         s3.read(fn, remove_duplicates=False)
@@ -292,6 +294,7 @@ def one_case(ctx, index, want_model=True):
             ctx.count('edges.first_%s' % ('pos' if v[4] > 0 else 'neg' if v[4] < 0 else 'zero'))
     ctx.count('events.grad_nonzero_edge', nz)
     ctx.count('reuse.connected_events_reused', getattr(seq, '_gen_reused', 0))
+    ctx.count('reuse.rescaled_twins_same_file_row', getattr(seq, '_gen_twins', 0))
     tr = 0
     for k, v in seq.grad_library.data.items():
         cols = [v[3]] if seq.grad_library.type[k] == 'g' else list(v[1:])
